@@ -209,6 +209,9 @@ def run_history(res, mdrv, cfg, history, audits, tag, variant='fixed', count=Tru
             if h[0] == 'restart' and outcome != 'ok':
                 res.fail(PROP, 'a start on the handler\'s own log ends in %s' % ('sys.exit()' if outcome == 'refused' else outcome),
                          dict(replay, history=history[:i + 1]), key=key_for('restart-refused', ctx))
+            if h[0] == 'restart' and [l for f in before for l in f['lines']] != [l for f in after for l in f['lines']]:
+                res.fail(PROP, 'a start changed the complete lines of the log (a reported record was lost or rewritten)',
+                         dict(replay, history=history[:i + 1]), key='recovery-changed-records')
             if h[0] == 'cb' and was_alive and alive:
                 nb = sum(len(f['lines']) for f in before)
                 na = sum(len(f['lines']) for f in after)
@@ -392,9 +395,18 @@ def run(seed, tier, driver):
             for h in boundary_histories():
                 do_history(res, mdrv, {'max_size': ms, 'write_keepalive': True}, h, audits, 'bd')
             flush_audits(res, mdrv, audits)
+        # (a') thresholds at, just below and just above the exact size of the file after its first / second record
+        for payload in (UPD_S, UPD_M):
+            n1 = len(I.record_text(I.BASE + I.TICK, 1, 2, payload)) + 1
+            n2 = n1 + len(I.record_text(I.BASE + 2 * I.TICK, 2, 2, payload)) + 1
+            for ms in (n1 - 1, n1, n1 + 1, n2 - 1, n2, n2 + 1):
+                h = [['restart'], ['tick', 1], ['cb', 'update', payload], ['tick', 1], ['cb', 'update', payload],
+                     ['tick', 1], ['cb', 'update', payload], ['restart']] + CONT
+                do_history(res, mdrv, {'max_size': ms, 'write_keepalive': True}, h, audits, 'ex')
+        flush_audits(res, mdrv, audits)
         # (b) every byte offset of every write of the base histories
         bases = base_histories()
-        plan = [(330, bases[0]), (10 ** 9, bases[1]), (1, bases[1])] if tier == 'quick' else \
+        plan = [(330, bases[0]), (10 ** 9, bases[1]), (1, bases[1])] if tier in ('quick', 'search') else \
             [(ms, b) for ms in THRESHOLDS for b in bases]
         for ms, b in plan:
             every_offset(res, mdrv, {'max_size': ms, 'write_keepalive': True}, b, audits, tier)
